@@ -39,8 +39,12 @@ FLAVOURS = ("objective", "con-upper", "con-lower", "con-eq", "con-two")
 
 
 # ----------------------------------------------------------------------------
-def make_filter(n: int, flavour: str, percentile: float, obj_weights: list[float] | None = None,
-                sort: list[int] | None = None, target: float = 0.5) -> tuple[Any, EnOptConfig]:  # noqa: ANN401
+SPELLINGS = {"plain": lambda m: m, "qualified": lambda m: "default/" + m, "upper": lambda m: m.upper(),
+             "qualified-mixed": lambda m: "Default/" + m.title()}
+
+
+def make_filter(n: int, flavour: str, percentile: float, obj_weights: list[float] | None = None,  # noqa: PLR0913
+                sort: list[int] | None = None, target: float = 0.5, spelling: str | None = None) -> tuple[Any, EnOptConfig]:  # noqa: ANN401
     config: dict[str, Any] = {
         "variables": {"initial_values": [0.0]},
         "realizations": {"weights": [1.0] * n},
@@ -62,6 +66,8 @@ def make_filter(n: int, flavour: str, percentile: float, obj_weights: list[float
         config["realization_filters"] = [
             {"method": "cvar-constraint", "options": {"sort": 0, "percentile": percentile}}
         ]
+    for spec in config["realization_filters"]:
+        spec["method"] = SPELLINGS[spelling or "plain"](spec["method"])
     cfg = EnOptConfig.model_validate(config)
     flt = _MANAGER.get_plugin("realization_filter", cfg.realization_filters[0].method).create(cfg, 0)
     return flt, cfg
@@ -123,7 +129,7 @@ def run_filter(case: dict[str, Any]) -> None:
     p = case["percentile"]
     obj_w = case.get("obj_weights")
     sort = case.get("sort")
-    flt, cfg = make_filter(n, flavour, p, obj_w, sort)
+    flt, cfg = make_filter(n, flavour, p, obj_w, sort, spelling=case.get("spelling"))
     run_with_filter(flt, cfg, case, values, failed)
 
 
@@ -225,7 +231,8 @@ def hypothesis_shard(item: dict[str, Any]) -> Collector:
         else:
             p = draw(st.floats(0.0, 1.0, exclude_min=True, allow_nan=False))
         p = min(max(p, 5e-324), 1.0)
-        case: dict[str, Any] = {"kind": "filter", "n": n, "flavour": flavour, "failed": failed, "percentile": p}
+        case: dict[str, Any] = {"kind": "filter", "n": n, "flavour": flavour, "failed": failed, "percentile": p,
+                                "spelling": draw(st.sampled_from(sorted(SPELLINGS)))}
         if flavour == "objective" and draw(st.booleans()):
             k_n = draw(st.integers(2, 3))
             case["obj_weights"] = [draw(st.sampled_from([0.5, 1.0, 2.0, 3.0])) for _ in range(k_n)]
@@ -284,7 +291,7 @@ def run_e2e(case: dict[str, Any]) -> None:
     failed = np.array(case["failed"], dtype=bool)
     values = np.array(case["values"], dtype=np.float64).reshape(n, -1)
     p = case["percentile"]
-    flt, cfg = make_filter(n, flavour, p, case.get("obj_weights"), case.get("sort"))
+    flt, cfg = make_filter(n, flavour, p, case.get("obj_weights"), case.get("sort"), spelling=case.get("spelling"))
     cfgd = cfg.model_dump(round_trip=True)
     cfgd["realizations"]["realization_min_success"] = 0
     cfg = EnOptConfig.model_validate(cfgd)
